@@ -44,6 +44,12 @@ pub fn judge_one(ctx: &mut Ctx, rd: &Rendered, sp: &Sp, cfg: &Cfg, step: u8, gen
         ctx.skip("tag recognition in dispute on this rendering (KF-C08)");
         return;
     }
+    let from_gate = matches!(gen_name, "junk-atoms" | "mutated" | "junk-random" | "many-unclosed-openers" | "replay");
+    if (from_gate && !judge::spans_subset(rd, sp)) || (!from_gate && !judge::spans_consistent(rd, sp)) {
+        // generator self-check: the recorded tag spans must be exactly the tags of the reference scan
+        ctx.skip("delimiter characters occur outside tags under this spelling (generator self-check)");
+        return;
+    }
     ctx.before_exec(|| doc_replay("doc", rd, sp, cfg, step));
     ctx.eval();
     ctx.count(&format!("gen:{gen_name}"));
@@ -256,6 +262,21 @@ pub fn run(ctx: &mut Ctx) {
         let rd = render(&d, &sp);
         judge_one(ctx, &rd, &sp, &cfg, STEP, "ast-cr");
     }
+    // ---- B5: big documents (thresholds: 255 / 4096 / 65 535 bytes, columns, lines, siblings)
+    let total = 60 * scale;
+    for i in (shard..total).step_by(n as usize) {
+        if ctx.past(0.64) {
+            break;
+        }
+        let mut r = Rng::for_case(seed, 9, i);
+        let sp = sp_for(i);
+        let mut d = gen_big_doc(&mut r, &sp, i % 2 == 0, i % 3 != 0);
+        if is_c04 {
+            make_nothing_ready(&mut d, &mut r);
+        }
+        let rd = render(&d, &sp);
+        judge_one(ctx, &rd, &sp, &cfg, STEP, "ast-big");
+    }
     // ---- B4: deep nesting in pending / skip / unregistered parents with a ready element at the
     // bottom, and hundreds of unclosed openers in front of a ready element
     if shard < 6 {
@@ -272,6 +293,12 @@ pub fn run(ctx: &mut Ctx) {
             let opener = format!("{}{} name='zzz'{}", sp.ds, sp.mk, sp.de);
             let ready = if is_c04 { "zzz" } else { "feat-a" };
             let s = format!("{}\nkeep();\n{}{} name='{}'{}\ngone();\n{}/{}{}\nend();\n", opener.repeat(k), sp.ds, sp.mk, ready, sp.de, sp.ds, sp.mk, sp.de);
+            if let Ok(rd) = admit(&s, &sp, &cfg) {
+                judge_one(ctx, &rd, &sp, &cfg, STEP, "many-unclosed-openers");
+            }
+            // ... and k unclosed openers of another name between the tags of a ready element
+            let inert = format!("{}note{} x ", sp.ds, sp.de);
+            let s = format!("keep();\n{}{} name='{}'{}\n{}\ngone();\n{}/{}{}\nend();\n", sp.ds, sp.mk, ready, sp.de, inert.repeat(k), sp.ds, sp.mk, sp.de);
             if let Ok(rd) = admit(&s, &sp, &cfg) {
                 judge_one(ctx, &rd, &sp, &cfg, STEP, "many-unclosed-openers");
             }
